@@ -2,8 +2,11 @@ package main
 
 import (
 	"bufio"
+	"crypto/sha256"
+	"encoding/hex"
 	"encoding/json"
 	"fmt"
+	"golang.org/x/crypto/ripemd160"
 	"math/rand"
 	"os"
 	"strconv"
@@ -115,3 +118,13 @@ func guard(f func()) (panicked bool, msg string) {
 }
 
 func num(v interface{}) int { return int(v.(float64)) }
+
+func hexDecode(s string) ([]byte, error) { return hex.DecodeString(s) }
+
+// hash160 with the standard library / x/crypto (not go-bt's own helper)
+func hash160(b []byte) []byte {
+	s := sha256.Sum256(b)
+	r := ripemd160.New()
+	r.Write(s[:])
+	return r.Sum(nil)
+}
